@@ -243,11 +243,27 @@ def delay_code(a, kind, n, uid):
         t = 20 * n - 5
     return 7 + t
 
+def boundary_delay(a, spec, uid):
+    """spec = (kind 'jr'|'jp', value 0..255, use_xor): a DEC A delay loop entered with a boundary value of A.
+    A=0 on entry means 256 iterations (3584 T-states for the JP form, 4091 for the JR form)."""
+    kind, value, use_xor = spec
+    if value == 0 and use_xor:
+        a.db(0xAF)                           # XOR A
+    else:
+        a.db(0x3E, value)                    # LD A,value
+    lab = 'bd%s' % uid
+    a.label(lab)
+    a.db(0x3D)                               # DEC A
+    if kind == 'jr':
+        a.jr(0x20, lab)
+    else:
+        a.jp(0xC2, lab)
+
 def delay_n(kind, tstates):
     per = {'jr': 16, 'jp': 14}.get(kind, 20)
     return max(1, min(255, round(tstates / per)))
 
-def build_edge_loader(shape, org, fill, delay_kind, rng, init_ctr=True):
+def build_edge_loader(shape, org, fill, delay_kind, rng, init_ctr=True, wait_delay=None):
     """Returns (code bytes, labels). Entry LDB: A=flag byte, IX=destination, length pair=length, carry set."""
     lenp, par, byt = _alloc(shape)
     ctr, ear = R8[shape.ctr], R8[shape.ear]
@@ -316,6 +332,9 @@ def build_edge_loader(shape, org, fill, delay_kind, rng, init_ctr=True):
         a.db(0x00, 0x00, 0x00)
     a.db(0x05 + 8 * b)                       # DEC byt
     a.jr(0x20, 'WAIT')
+    if wait_delay:
+        # the pilot tone is playing here: how long this takes decides which edge is sampled next
+        boundary_delay(a, wait_delay, 'w')
     a.jp(0xCD, 'EDGE2')
     a.jr(0x30, 'BREAK')
     ld_r_n(cnt, 0x100 - rng.choice([0x40, 0x80, 0x100]) & 0xFF)
@@ -433,7 +452,7 @@ def build_edge_loader(shape, org, fill, delay_kind, rng, init_ctr=True):
 
 # ------------------------------------------------------------------ 'cycle' skeleton (polarity-sensitive pairs)
 
-def build_cycle_loader(pair, org, delay_kind, rng, swap):
+def build_cycle_loader(pair, org, delay_kind, rng, swap, wait_delay=None):
     """Loader timing one low+high cycle per bit. The block format is raw bytes (no flag, no parity).
     swap=0: wait while low, then while high (bit pairs must be low,high); swap=1: the other way round."""
     s0, s1 = SHAPE[CYCLE_PAIRS[pair][0]], SHAPE[CYCLE_PAIRS[pair][1]]
@@ -462,6 +481,8 @@ def build_cycle_loader(pair, org, delay_kind, rng, swap):
     a.jr(0x30, 'PILOT')
     a.db(0x05 + 8 * byt)
     a.jr(0x20, 'P1')
+    if wait_delay:
+        boundary_delay(a, wait_delay, 'w')     # the pilot tone is still playing here
     a.label('SYNC')
     a.db(0x06 + 8 * ctr, 0x00)
     a.jp(0xCD, 'CYCLE')
@@ -513,15 +534,17 @@ def build_cycle_loader(pair, org, delay_kind, rng, swap):
 
 # ------------------------------------------------------------------ stub + whole program
 
-def build_program(loader, org, rng, blocks, fill='ret', delay_kind='jr', swap=0, ending='loop', init_ctr=True):
-    """blocks: list of dicts {dest, data(bytes), flag}. Returns dict(code, org, fin, loader_info, labels)."""
+def build_program(loader, org, rng, blocks, fill='ret', delay_kind='jr', swap=0, ending='loop', init_ctr=True, wait_delay=None, post_delay=None):
+    """blocks: list of dicts {dest, data(bytes), flag}. Returns dict(code, org, fin, loader_info, labels).
+    wait_delay / post_delay: (kind, value, use_xor) boundary-value DEC A delay loops - inside the loader while the pilot tone
+    is playing, and in the stub after the last block has been loaded (just before FIN)."""
     kind, accs = LOADERS[loader]
-    stub_len = 3 + len(blocks) * 14 + 8
+    stub_len = 3 + len(blocks) * 14 + 8 + 8
     lorg = org + stub_len
     if kind == 'edge':
-        lcode, labels, info = build_edge_loader(SHAPE[loader], lorg, fill, delay_kind, rng, init_ctr)
+        lcode, labels, info = build_edge_loader(SHAPE[loader], lorg, fill, delay_kind, rng, init_ctr, wait_delay)
     else:
-        lcode, labels, info = build_cycle_loader(loader, lorg, delay_kind, rng, swap)
+        lcode, labels, info = build_cycle_loader(loader, lorg, delay_kind, rng, swap, wait_delay)
     rp = PAIRS[info['len_pair']]
     a = Asm(org)
     a.db(0x00, 0x00, 0x00)
@@ -532,6 +555,8 @@ def build_program(loader, org, rng, blocks, fill='ret', delay_kind='jr', swap=0,
         a.db(0x3E, blk['flag'], 0x37)
         a.db(0xCD, labels['LDB'] & 0xFF, labels['LDB'] >> 8)
         a.db(0x00)
+    if post_delay:
+        boundary_delay(a, post_delay, 'p')
     a.label('FIN')
     if ending == 'halt':
         a.db(0xF3, 0x76)
